@@ -73,7 +73,7 @@ mod verif_overlap {
             /// Soundness: a layout accepted as non-overlapping maps distinct valid indices to
             /// distinct offsets.
             #[kani::proof]
-            #[kani::unwind(6)]
+            #[kani::unwind(12)]
             #[kani::stub(<[(usize, usize)]>::sort_unstable, insertion_sort)]
             pub fn $name() {
                 let (shape, strides): ([usize; $n], [usize; $n]) = any_small();
@@ -95,13 +95,13 @@ mod verif_overlap {
     /// Full-width rank 1/2: if the check accepts and the offsets do not wrap (max offset over
     /// the integers fits usize) then offsets computed over the integers are distinct.
     #[kani::proof]
-    #[kani::unwind(6)]
+    #[kani::unwind(12)]
     #[kani::stub(<[(usize, usize)]>::sort_unstable, insertion_sort)]
     pub fn accepted_layout_is_injective_full_width_2() {
         let shape: [usize; 2] = kani::any();
         let strides: [usize; 2] = kani::any();
         kani::assume(shape[0] >= 1 && shape[1] >= 1);
-        let zmax = (shape[0] as u128 - 1) * strides[0] as u128 + (shape[1] as u128 - 1) * strides[1] as u128;
+        let zmax = ((shape[0] as u128 - 1) * strides[0] as u128).saturating_add((shape[1] as u128 - 1) * strides[1] as u128);
         kani::assume(zmax <= usize::MAX as u128);
         if !may_have_internal_overlap(shape, strides) {
             let i: [usize; 2] = kani::any();
@@ -119,7 +119,7 @@ mod verif_overlap {
     /// Completeness clause of the property: layouts obtained by permuting and slicing (with
     /// positive steps) a contiguous layout are always accepted.
     #[kani::proof]
-    #[kani::unwind(6)]
+    #[kani::unwind(12)]
     #[kani::stub(<[(usize, usize)]>::sort_unstable, insertion_sort)]
     pub fn sliced_permuted_contiguous_is_accepted_3() {
         let mut base = [0usize; 3];
@@ -150,7 +150,7 @@ mod verif_overlap {
 
     /// is_contiguous is exact w.r.t. the row-major definition (non-empty layouts).
     #[kani::proof]
-    #[kani::unwind(6)]
+    #[kani::unwind(12)]
     pub fn is_contiguous_exact_3() {
         let (shape, strides): ([usize; 3], [usize; 3]) = any_small();
         kani::assume(shape[0] >= 1 && shape[1] >= 1 && shape[2] >= 1);
